@@ -4,6 +4,14 @@ import json, os
 V = os.path.dirname(os.path.dirname(os.path.abspath(__file__)))
 
 CHECKS = {
+    'C02': ('abstract interpretation of the generator (syn) -> extracted decision table, exhaustive lookup over the finite domain of WGSL resource types vs. a wgpu-core oracle',
+            'Exhaustive over a finite domain: the `ty:` decision table of the layout-entry template is extracted from the source and looked up at every WGSL-spellable resource type (703 points enumerated from the pinned naga source: buffers x address spaces, sampled/depth/multisampled textures x 6 view dimensions, all 41 storage formats x 4 accesses x 4 dimensions, samplers); the emitted wgpu::BindingType tokens are compared with an oracle transliterated from wgpu-core 24 (check_binding_use, map_storage_format_to_naga, create_bind_group_layout entry rules). Visibility (C03 rules) is evaluated in the same run because the statement includes it.',
+            'Trusted: Engine A\'s abstract semantics of the Rust idioms used; the hand-transliterated oracle (rows cite wgpu-core functions); naga reports types as enumerated. Existence/order of bindings is C04/C11.',
+            'DESIGN.md section 3 C02'),
+    'C03': ('abstract effect summary of the stage walker (syn-based interpreter): traversal exhaustiveness against the naga Statement/Expression schema, stage propagation, seeding, lookup wiring',
+            'Necessary-and-sufficient structural conditions of the reachability computation, decided on the abstract effect summary of the walker functions (anchored by role): every Block / Handle<Function> field of naga::Statement (enumerated from the pinned naga source) and Expression::CallResult is followed without extra condition, from whole blocks; GlobalVariable updates map[name] by union with the unchanged stage parameter; the driver seeds all entry points with the 3-row stage table, a visited set fresh per entry point, and returns the map; the visibility hole is map.get(name of the same binding) or NONE.',
+            'Trusted: naga\'s IR invariant (calls are Statement::Call/Expression::CallResult; global uses are Expression::GlobalVariable); quote_shader_stages on its 8 inputs is pinned by an existing unit test.',
+            'DESIGN.md section 3 C03'),
     'C11': ('MIR dominator/guard rules on the group-data function: scan-before-push, density-before-Ok, no panic path (rustc_private driver)',
             'Structural clauses decided on every path of the function(s) that construct DuplicateBinding and of the top-level function: each push onto a group list is dominated by the false edge of a whole-list scan comparing binding_index, whose true edge returns DuplicateBinding{binding}; list = map entry keyed by the same ResourceBinding.group; loop over all globals unfiltered; the single Ok(groups: BTreeMap) is dominated by a recognised density test keys == 0..len whose other edge returns NonConsecutiveBindGroups; NonConsecutive only after the scan loop; no panic-capable callee / checked arithmetic; error returned unchanged before any emission. Decides the control/data-flow shape, not the interplay with naga\'s validator.',
             'Trusted: rustc MIR + Instance resolution; naga handles index their own module; recognised density idioms are the two listed (another equivalent form is reported as undecided).',
@@ -26,6 +34,7 @@ CHECKS = {
             'Trusted: rustc nightly MIR + Instance resolution; cost inside naga/syn/prettyplease/rustfmt; constant factors. Loops are polynomial by nesting (reported, not judged).',
             'DESIGN.md section 3 C20'),
 }
+ENGINE_A = {'C01','C02','C03','C04','C05','C06','C07','C08','C09','C10','C12','C13','C14','C15','C16'}
 NOT_YET = 'check not built yet in this round (design in DESIGN.md section 3); listed here so that nothing is claimed without a running check'
 
 def main():
@@ -59,7 +68,9 @@ def main():
             'add_only': True,
         },
         'engines': [
-            {'name': 'mirfacts', 'path': 'tools/mirfacts', 'serves_properties': sorted(k for k in CHECKS),
+            {'name': 'syndump+ogp', 'path': 'tools/syndump', 'serves_properties': sorted(k for k in CHECKS if k in ENGINE_A),
+             'kind_free_text': 'syn-based AST dumper + Python abstract interpreter (lib/engine_ogp.py) producing the output grammar with provenance: templates, decision tables, hole provenance, effect summaries; finite-domain table lookup in lib/conc.py; schemas from pinned dependency sources in lib/schema.py'},
+            {'name': 'mirfacts', 'path': 'tools/mirfacts', 'serves_properties': sorted(k for k in CHECKS if k not in ENGINE_A),
              'kind_free_text': 'rustc_private driver (nightly) dumping resolved MIR facts of the crate: CFG, resolved callees, def-use, aggregates; rules in lib/rules/*.py'},
         ],
         'checks': checks,
